@@ -307,6 +307,34 @@ UNITS += [
                 ("loop_start", "2", "            proof { assert(vap@[it2.index@] == *e); }")],
          ),
 ]
+
+IXF = "crates/core/src/index.rs"
+WGI = dict(wrap_open="impl GlobalIndex {", wrap_close="}")
+UNITS += [
+    Unit(name="gi_new_from_index", file=IXF, anchor="pub fn new_from_index(index: Index) -> Self", within="impl GlobalIndex {", ret_name="r", **WGI,
+         functions=["index::GlobalIndex::new_from_index"],
+         contract="\n    ensures r.index.v == index,\n"),
+    Unit(name="gi_new_from_collector", file=IXF, anchor="fn new_from_collector(", within="impl GlobalIndex {", ret_name="r", **WGI,
+         functions=["index::GlobalIndex::new_from_collector"],
+         rewrites=[
+             Rw("be: &impl DecryptReadBackend,", "be: &VListBackend,", sig=True, why="impl DecryptReadBackend -> index-file stream stub"),
+             Rw("for index in be.stream_all::<IndexFile>(p)? {", "let vstream = be.vstream_all_index(p)?; for index in it: vstream.into_iter() {", why="channel stream -> vector of per-file results; Verus for-loop syntax"),
+         ],
+         contract="""
+    ensures
+        // the index all commands work with is built from exactly the LIVE packs of all index files (after whatever the collector held)
+        /*@global_index_is_exactly_the_live_packs*/ r matches Ok(g) ==> g.index.v.from@ == collector.fed@ + live_packs(be.index_files(), be.index_files().len() as int),
+""",
+         loops={1: """
+            invariant
+                vstream@.len() == be.index_files().len(),
+                forall|i: int| 0 <= i < vstream@.len() ==> ((#[trigger] vstream@[i]) matches Ok(x) ==> x.1 == be.index_files()[i]),
+                collector.fed@ == c0 + live_packs(be.index_files(), it.index@),
+"""},
+         hints=[("before", "p.set_title(", "        let ghost c0 = collector.fed@;"),
+                ("loop_start", "1", "            proof { assert(c0 + (live_packs(be.index_files(), it.index@) + be.index_files()[it.index@].packs@) =~= (c0 + live_packs(be.index_files(), it.index@)) + be.index_files()[it.index@].packs@); }")],
+         ),
+]
 KANI = []
 META = {"not_covered": [
     "completeness ('every damage is reported or harmless') and the link to restorability: whole-repository statements",
